@@ -24,6 +24,15 @@ fn main() {
     let mode = a.get(1).map(|s| s.as_str()).unwrap_or("match");
     let n: usize = a.get(2).and_then(|s| s.parse().ok()).unwrap_or(1000);
     let seed: u64 = a.get(3).and_then(|s| s.parse().ok()).unwrap_or(1);
+    if mode == "strings" {
+        // dump the strings regress holds for each property of strings (candidates for oracle/export_strings_v8.js)
+        for name in ["Basic_Emoji", "Emoji_Keycap_Sequence", "RGI_Emoji_Flag_Sequence", "RGI_Emoji_Modifier_Sequence", "RGI_Emoji_Tag_Sequence", "RGI_Emoji_ZWJ_Sequence", "RGI_Emoji"] {
+            if let Some(v) = regress::verif::string_property_strings(name) {
+                println!("{}", json!({"name": name, "strings": v}));
+            }
+        }
+        return;
+    }
     let mut st = splitmix(seed);
     for _ in 0..n {
         let choices: Vec<u32> = (0..400)
